@@ -12,7 +12,7 @@ BOUNDS = {
 OUTSIDE = ("more than 5 symbolic scalars at once; more than two children per parent; wire bytes beyond the header (protobuf's own codec; replay only); the upb backend (replay only)")
 
 
-def _wr(oracle):
+def _wr(oracle, tier="quick"):
     out = []
     for clen in (0, 2):
         for kind, dm in (("code", 0), ("code", 1), ("data", 0)):
@@ -30,13 +30,23 @@ def _wr(oracle):
     for lt in range(-1, len(P.ETYPES)):
         out.append({"fn": "w_cfg", "consts": {"oracle": oracle, "lt": lt, "shape": (lt + 1) % 3}, "timeout": 600})
     out.append({"fn": "w_shape", "consts": {"oracle": oracle}, "timeout": 1500})
+    if tier != "quick":
+        for order in (0, 1):
+            out.append({"fn": "w_combo", "consts": {"oracle": oracle, "order": order}, "timeout": 1800})
+        for clen in (1,):
+            for kind, dm in (("code", 1), ("data", 0)):
+                out.append({"fn": "w_interval", "consts": {"oracle": oracle, "clen": clen, "kind": kind, "dm": dm}, "timeout": 900})
+        for i in range(len(P.ISAS)):
+            for j in (1, 5):
+                out.append({"fn": "w_module", "consts": {"oracle": oracle, "isa": i, "ff": (i * j + 1) % len(P.FFS), "bo": (i + j) % len(P.BOS),
+                                                         "name": (i + j) % len(P.NAMES), "bpath": i % len(P.NAMES)}, "timeout": 600})
     for t in range(len(P.AUX_TYPES)):
         out.append({"fn": "w_aux", "consts": {"oracle": oracle, "t": t, "level": ("ir", "module")[t % 2]}, "timeout": 600})
     return out
 
 
 def shards(tier):
-    out = _wr("writer")
+    out = _wr("writer", tier)
     out.append({"fn": "header", "consts": {"oracle": "writer"}, "timeout": 300})
     for kind, dm in (("code", 0), ("code", 1), ("data", 0)):
         out.append({"fn": "r_interval", "consts": {"oracle": "reader", "kind": kind, "dm": dm}, "timeout": 900})
@@ -46,7 +56,8 @@ def shards(tier):
         out.append({"fn": "r_symbol", "consts": {"oracle": "reader", "pk": pk, "name": 0 if pk == "none" else 3}, "timeout": 600})
     for kind in ("const", "addr"):
         for key, nflags in ((0, 0), (2 ** 64 - 1, 1), (3, 2)):
-            out.append({"fn": "r_expr", "consts": {"oracle": "reader", "kind": kind, "key": key, "nflags": nflags}, "timeout": 900})
+            out.append({"fn": "r_expr", "consts": {"oracle": "reader", "kind": kind, "key": key, "nflags": nflags, "cross": 1 if (kind == "addr" and key == 0) else 0}, "timeout": 900})
+    out.append({"fn": "r_expr", "consts": {"oracle": "reader", "kind": "const", "key": 1, "nflags": 0, "cross": 1}, "timeout": 900})
     for has_label in (0, 1):
         out.append({"fn": "r_edge", "consts": {"oracle": "reader", "has_label": has_label}, "timeout": 600})
     for two in (0, 1):
